@@ -78,8 +78,21 @@ def joined(frames_texts_first_seq, text):
 
 
 def corrupt(rng, fr, region=None):
+    """damage a frame in a way its checksum shows; returns (corrupted, pos, newbyte).  (A glued or shortened unit may by
+    chance - one in 256 - carry two characters at its end that are the checksum of everything in front of them: such a
+    unit is a valid frame for any receiver, not a damaged one, and is drawn again.)"""
+    for _attempt in range(20):
+        out = _corrupt(rng, fr, region)
+        unit = out[0].rstrip(b"\r\n")
+        if len(unit) >= 4 and unit[:1] == STX and unit[-2:].upper() == checksum(unit[1:-2]):
+            continue
+        return out
+    return out
+
+
+def _corrupt(rng, fr, region=None):
     """change one byte of the content (frame number, text, terminator) or of the checksum characters
-    to a different value; returns (corrupted, pos, newbyte)"""
+    to a different value, or damage it otherwise"""
     body_end = len(fr.rstrip(b"\r\n"))
     if region is None and rng.random() < 0.25:
         # damage that is not a substitution: a doubled start byte (the checksum then covers only the tail), an
@@ -87,10 +100,10 @@ def corrupt(rng, fr, region=None):
         kind = rng.choice(["dup-stx", "insert", "delete", "truncate", "truncate-short", "glued-bad-good", "glued-good-bad"])
         if kind == "glued-bad-good":
             # a damaged copy and the intact frame in one segment
-            bad = corrupt(rng, fr, region="content")[0]
+            bad = _corrupt(rng, fr, region="content")[0]
             return bad + fr, 0, -1
         if kind == "glued-good-bad":
-            bad = corrupt(rng, fr, region="checksum")[0]
+            bad = _corrupt(rng, fr, region="checksum")[0]
             return fr + bad, 0, -1
         if kind == "dup-stx":
             return STX * rng.choice([1, 1, 2]) + fr, 0, 2
